@@ -24,6 +24,9 @@ Nothing here decides the property: the emitted programs are checked by the Lean 
 import ast, os, json, sys
 from . import tables as T
 
+if hasattr(sys, "set_int_max_str_digits"):
+    sys.set_int_max_str_digits(0)          # packed tables travel as decimal numbers
+
 NEW, COPY, STORE, ELEM, WRITE, SETATTR, RGLOB, WGLOB, RNG = range(9)
 OPNAMES = ["new", "copy", "store", "elem", "write", "setattr", "readGlobal", "writeGlobal", "rng"]
 HERE = os.path.dirname(os.path.abspath(__file__))
@@ -1631,3 +1634,63 @@ if __name__ == "__main__":
     for r in results:
         print("%-72s %-20s instrs=%4d %s %s" % (r.name, r.kind, len(r.prog.instrs), "safe" if r.safe else "UNSAFE", r.classification))
     print("unknown calls:", sorted(tr.unknown_calls))
+
+
+# ------------------------------------------------------------------------------------------------ snippets (translator self-test)
+
+def translate_snippet(src, entry, policy=None):
+    """translate one function / method (`f` or `C.m`) of a stand-alone module given as text"""
+    project = Project(sources={"snippet": src})
+    tr = Translator(project, policy or {"constants": []})
+    for ep in project.entry_points():
+        if ep.qualname == entry:
+            prog = tr.translate(ep)
+            return Result(ep, prog, prog.solve(), policy or {})
+    raise TranslatorError("snippet has no entry point %s" % entry)
+
+
+SNIPPETS = [
+    # (verdict expected from the checker, entry, source)
+    ("bad", "f", "def f(a):\n    a.sort()\n"),
+    ("bad", "f", "def f(a):\n    b = a\n    b[0] = 1\n"),
+    ("bad", "f", "import numpy as np\ndef f(a):\n    b = np.asarray(a)\n    b += 1\n"),
+    ("bad", "f", "def f(a):\n    l = list(a)\n    l[0][0] = 5\n"),
+    ("bad", "f", "def f(a):\n    a[:, 1] -= a[:, 0]\n    return a\n"),
+    ("bad", "f", "import numpy as np\ndef f(a):\n    np.fill_diagonal(a, 0)\n"),
+    ("bad", "f", "def f(a):\n    b = a.T\n    b[0] = 1\n"),
+    ("bad", "f", "def f(a):\n    b = a.reshape(-1)\n    b.fill(0)\n"),
+    ("bad", "f", "def f(a):\n    for r in a:\n        r[0] = 1\n"),
+    ("bad", "f", "def f(a):\n    x, y = a\n    x.append(1)\n"),
+    ("bad", "f", "import numpy as np\ndef f(a, flag):\n    b = a if flag else np.copy(a)\n    b[0] = 1\n"),
+    ("bad", "f", "import numpy as np\ndef f(a):\n    b = np.array(a, copy=False)\n    b[0] = 1\n"),
+    ("bad", "f", "def g(x):\n    x[0] = 1\ndef f(a):\n    g(a)\n"),
+    ("bad", "f", "def f(a):\n    d = {'k': a}\n    d['k'][0] = 1\n"),
+    ("bad", "C.m", "class C:\n    def __init__(self, a):\n        self.a = a\n    def m(self):\n        self.a[0] = 1\n"),
+    ("bad", "f", "import numpy as np\ndef f(a):\n    np.add(a, 1, out=a)\n"),
+    ("bad", "f", "def f(a):\n    del a[0]\n"),
+    ("bad", "f", "def f(a):\n    b = a[1:]\n    b[0] = 1\n"),
+    ("bad", "f", "_CACHE = {}\ndef f(a):\n    _CACHE['k'] = 1\n    return _CACHE\n"),
+    ("bad", "f", "def f(a):\n    a.astype(float, copy=False)[0] = 1\n"),
+    ("bad", "f", "import numpy as np\ndef f(a, n):\n    b = a\n    for i in range(n):\n        b[0] = 1\n        b = np.copy(b)\n"),
+    ("bad", "f", "import numpy as np\ndef f(a):\n    np.random.shuffle(a)\n"),
+    ("bad", "f", "def f(a, l=[]):\n    l.append(1)\n    return l\n"),
+    ("bad", "f", "import numpy as np\ndef f(a):\n    try:\n        b = np.copy(a)\n    except Exception:\n        b = a\n    b[0] = 1\n"),
+    ("bad", "f", "import numpy as np\ndef f(a):\n    S = np.asarray(a)\n    S[S[:, 1] > 3, 1] = 0\n"),
+    ("bad", "f", "def f(A):\n    for i in range(len(A)):\n        A[i] = list(A[i])\n    A.pop(-1)\n"),
+    ("bad", "C.__mul__", "class C:\n    def __init__(self, v):\n        self.values = v\n    def __mul__(self, other):\n        values = self.values\n        values *= other\n        return C(values)\n"),
+    ("bad", "f", "def f(a):\n    unknown_library_call(a)\n"),
+    ("good", "f", "import numpy as np\ndef f(a):\n    a = np.array(a)\n    a[0] = 1\n    return a\n"),
+    ("good", "f", "def f(a):\n    l = [list(r) for r in a]\n    l[0][0] = 5\n    return l\n"),
+    ("good", "f", "import numpy as np\ndef f(a):\n    b = np.copy(a)\n    b[:, 1] -= b[:, 0]\n    return b\n"),
+    ("good", "f", "def f(a):\n    return sorted(a)\n"),
+    ("good", "f", "def f(a):\n    b = a + 1\n    b += 1\n    return b\n"),
+    ("good", "f", "def f(a):\n    b = a[a[:, 1] > 0]\n    b[0] = 1\n    return b\n"),
+    ("good", "f", "def f(a):\n    b = a.astype(float)\n    b[0] = 1\n    return b\n"),
+    ("good", "f", "def f(a):\n    V = [x for x in a]\n    V.sort()\n    return V\n"),
+    ("good", "f", "import copy\ndef f(a):\n    b = copy.deepcopy(a)\n    b[0][0] = 1\n    return b\n"),
+    ("good", "C.m", "import numpy as np\nclass C:\n    def __init__(self, a):\n        self.a = a\n    def m(self):\n        b = np.copy(self.a)\n        b[0] = 1\n        self.b = b\n"),
+    ("good", "f", "def f(a):\n    s = 0\n    for x in a:\n        s += x\n    return s\n"),
+    ("good", "f", "import numpy as np\ndef g(x):\n    x = np.copy(x)\n    x[0] = 1\n    return x\ndef f(a):\n    return g(a)\n"),
+    ("good", "f", "def f(A):\n    A = list(A)\n    for i in range(len(A)):\n        A[i] = list(A[i])\n    A.pop(-1)\n    return A\n"),
+    ("good", "f", "import numpy as np\ndef f(a, b):\n    D = np.zeros((3, 3))\n    D[0:2, 0:2] = a\n    np.fill_diagonal(D, b)\n    return D\n"),
+]
